@@ -125,6 +125,7 @@ type Interp struct {
 	curPos    token.Pos
 	lastCall  string
 	violatedLabels map[string]bool
+	bigs           map[*Object]*big.Int
 	pathViolations int
 }
 
